@@ -29,6 +29,8 @@ def item_text(it):
     if k == "eol":
         return "$"
     if k == "rep":
+        if it["rep"] == "Count":
+            return item_text(it["x"]) + "{%d,%s}" % (it.get("lo", 0), "" if it.get("hi", 0) < 0 else it.get("hi", 0))
         return item_text(it["x"]) + {"Star": "*", "Plus": "+", "Quest": "?"}[it["rep"]]
     e = it.get("e", [0, 0, 0])
     fl = "".join(c for c, v in zip("ims", e) if v == 1)
@@ -336,6 +338,12 @@ def run(ctx):
                                                       unchecked="correspondence model(g17 match_entries on the bare host)/real binary with --mitm-domains"),
                       False, "%d --mitm-domains lists; smallest: %s" % (len(bad["mitm"]["M"]), list_texts(c)))
 
+    conc = meta.get("concurrent") or {}
+    if conc.get("mismatches"):
+        ctx.violation("concurrent-deny-verdict-differs-from-per-rule-evaluation", dict(kind="concurrent", mismatches=conc["mismatches"]), True,
+                      "with requests for hosts of opposite verdicts in flight at once the proxy handler answers a request differently from "
+                      "the per-rule verdict: " + conc["mismatches"][0][:400])
+
     def two_lists(c):
         return {"deny-domains": list_texts({"entries": c.get("deny") or []}),
                 "direct-domains": list_texts({"entries": c.get("direct") or []})}
@@ -380,6 +388,7 @@ def run(ctx):
                 "case variants, trailing dot, IPv4/IPv6 literals with and without port: denied (403) or forwarded to a scripted upstream (200); "
                 "non-trivial = lists with both a matching and a non-matching host + single rules Go compiled",
         "traces_validated_against_impl": int(meta.get("rule_cases", 0)) + int(meta.get("list_cases", 0)) + int(meta.get("e2e_cases", 0)),
+        "concurrent_in_process": {k: conc.get(k) for k in ("lists", "workers", "requests")},
         "e2e_real_binary": {"lists": meta.get("e2e_cases"), "probes": meta.get("e2e_probes")},
         "model_mismatches": len(bad["rule"]["M"]) + len(bad["list"]["M"]),
         "property_failures_on_impl": len(bad["list"]["P"]),
